@@ -12,6 +12,8 @@
 #include <yaclib/async/when_all.hpp>
 #include <yaclib/async/when_any.hpp>
 #include <yaclib/coro/await.hpp>
+#include <yaclib/coro/await_on.hpp>
+#include <yaclib/coro/await_sticky.hpp>
 #include <yaclib/coro/future.hpp>
 #include <yaclib/coro/on.hpp>
 #include <yaclib/coro/shared_future.hpp>
@@ -48,6 +50,8 @@ enum Op : int {
   kWhenAnyCopies,
   kCoAwait,       // a coroutine co_awaits the copy (value by const&, failure rethrown)
   kCoAwaitAwait,  // a coroutine co_awaits Await(copy), then reads the copy, which must be ready
+  kCoAwaitSticky,  // a coroutine running in e co_awaits AwaitSticky(copy): resumed in e, the copy is ready
+  kCoAwaitOn,      // a coroutine co_awaits AwaitOn(e, copy): resumed in e, the copy is ready
   kThenInherit,       // SharedFutureOn::Then(f): runs on the executor the shared state carries (degrades to Then(e) otherwise)
   kSubscribeInherit,  // SharedFutureOn::Subscribe(f)
   kWhenAllOwn,  // WhenAll<None>(std::move(own copy), other ready shared future): consumes the observer's copy, always last
@@ -61,7 +65,7 @@ enum Op : int {
 };
 const char* kOpNames[] = {"ThenInline", "Then(e)", "SubscribeInline", "Subscribe(e)", "Share().Get", "Share(e).ThenInline", "Connect(unique promise)",
                           "Connect(shared promise)", "Wait+Touch", "Get const&", "Ready()+Touch", "copy, use the copy, destroy it", "WhenAll(copy, copy)",
-                          "WhenAny(copy, copy)", "co_await copy", "co_await Await(copy)", "SharedFutureOn::Then(f)", "SharedFutureOn::Subscribe(f)", "WhenAll(move(own), other)", "WhenAny(move(own), copy)", "WhenAny(begin,2){copy, later}", "WhenAll<None>(begin,2){copy, later}", "Ready() then Touch&&", "Get&&", "drop own copy"};
+                          "WhenAny(copy, copy)", "co_await copy", "co_await Await(copy)", "co_await AwaitSticky(copy)", "co_await AwaitOn(e, copy)", "SharedFutureOn::Then(f)", "SharedFutureOn::Subscribe(f)", "WhenAll(move(own), other)", "WhenAny(move(own), copy)", "WhenAny(begin,2){copy, later}", "WhenAll<None>(begin,2){copy, later}", "Ready() then Touch&&", "Get&&", "drop own copy"};
 enum Producer : int { kSetValue, kSetError, kSetException, kDropPromise, kProducerCount };
 const char* kProducerNames[] = {"Set(value)", "Set(error)", "Set(exception)", "drop promise"};
 
@@ -101,11 +105,21 @@ class Case final : public sim::CaseBase {
     prod_delay = g.Draw(5);
     id = 1 + g.Noise(1000);
     const std::uint32_t max_ops = sim::Thorough() ? 8 : 4;
+    // the SharedFutureOn returned by RunShared/AsyncSharedContract stays the only handle of the shared state and branches: several
+    // executor-inheriting continuations are attached to it one after another, before or after the job has finished
+    solo_on = (run_kind == 1 || run_kind == 2) && g.Draw(3) == 0;
+    if (solo_on) {
+      observers = 1;
+      by_reference = true;
+    }
     for (int o = 0; o < observers; ++o) {
       std::vector<int> ops;
-      const std::uint32_t n = 1 + g.Draw(max_ops);
+      const std::uint32_t n = (solo_on ? 2 : 1) + g.Draw(max_ops);
       for (std::uint32_t k = 0; k < n; ++k) {
         int op = static_cast<int>(g.Draw(kOpCount));
+        if (solo_on) {
+          op = (op & 1) != 0 ? kThenInherit : kSubscribeInherit;
+        }
         if ((op == kWhenAnyIterAux || op == kWhenAllIterAux) && (run_kind == 1 || run_kind == 2)) {
           op = kWhenAllCopies;  // no producer thread to order the second shared state after the first one
         }
@@ -127,6 +141,9 @@ class Case final : public sim::CaseBase {
 
   void Describe(sim::Json& j) const final {
     j.KV("producer", kProducerNames[producer]).KV("created_by", promise_first ? "MakeSharedPromise + Split(promise)" : (split_unique ? "MakeContract + Split(Future&&)" : (run_kind == 1 ? "RunShared(e, f)" : (run_kind == 2 ? "AsyncSharedContract(e, f)" : (run_kind == 3 ? "coroutine returning SharedFuture (co_return / throw / stopped executor)" : (run_kind == 4 ? "Split(coroutine returning Future): the shared state is the coroutine's callback, reached through final_suspend" : "MakeSharedContract"))))));
+    if (solo_on) {
+      j.KV("handles", "the SharedFutureOn returned by the creator is the only handle; every continuation is attached to it");
+    }
     if (subsumed != 0) {
       j.KV("producer_connects_first", subsumed == 1 ? "a unique promise" : (subsumed == 2 ? "a shared promise" : "a unique and a shared promise"));
     }
@@ -260,6 +277,26 @@ class Case final : public sim::CaseBase {
     co_return {};
   }
 
+  static yaclib::Future<> AwaitStickyOrOn(Case* c, int o, std::size_t slot, SF copy, int op) {
+    co_await yaclib::On(*c->proxy);
+    if (op == kCoAwaitOn) {
+      co_await yaclib::AwaitOn(*c->proxy, copy);
+    } else {
+      co_await yaclib::AwaitSticky(copy);
+    }
+    ++c->attached[slot].calls;
+    if (sim::CurrentExec() != c->proxy->tag()) {
+      sim::Fail("WRONG_EXECUTOR", "observer %d: resumed after %s outside e (tag %d)", o, kOpNames[op], sim::CurrentExec());
+      co_return {};
+    }
+    if (!copy.Valid() || !copy.Ready()) {
+      sim::Fail("WAIT_NOT_READY", "%s resumed but the shared future is not valid and ready", kOpNames[op]);
+      co_return {};
+    }
+    c->Saw(o, op, sim::Observe(copy.Touch(), "Touch after co_await AwaitSticky/AwaitOn(copy)"));
+    co_return {};
+  }
+
   void Observe(int o, const SF& base, SF* own) {
     for (std::uint32_t y = 0; y < delays[static_cast<std::size_t>(o)]; ++y) {
       sim::Yield();
@@ -354,6 +391,16 @@ class Case final : public sim::CaseBase {
         case kCoAwaitAwait: {
           const std::size_t slot = NewAttached(o, op);
           auto f = op == kCoAwait ? AwaitCopy(this, o, slot, SF{c}) : AwaitViaAwait(this, o, slot, SF{c});
+          auto r = std::move(f).Get();
+          if (!r) {
+            sim::Fail("COROUTINE_FAILED", "the observer coroutine did not finish with a value");
+          }
+        } break;
+        case kCoAwaitSticky:
+        case kCoAwaitOn: {
+          SIM_PROBE("shared_future_await_sticky_or_on");
+          const std::size_t slot = NewAttached(o, op);
+          auto f = AwaitStickyOrOn(this, o, slot, SF{c}, op);
           auto r = std::move(f).Get();
           if (!r) {
             sim::Fail("COROUTINE_FAILED", "the observer coroutine did not finish with a value");
@@ -509,7 +556,11 @@ class Case final : public sim::CaseBase {
         gate_promise = std::move(gp);
         root = yaclib::Split(CoUnique(this, std::move(gf)));
       } else if (run_kind != 0) {
-        root = yaclib::SharedFutureOn<T, E>{root_on}.On(nullptr);
+        if (!solo_on) {
+          root = yaclib::SharedFutureOn<T, E>{root_on}.On(nullptr);
+        } else {
+          SIM_PROBE("single_handle_branches");
+        }
         on_handle = &root_on;
       } else if (split_unique) {
         // the shared state is fed by a unique future through Connect: the producer fulfils the unique promise
@@ -680,6 +731,7 @@ class Case final : public sim::CaseBase {
   const SF* aux = nullptr;
   int subsumed = 0;
   int run_kind = 0;
+  bool solo_on = false;
   const yaclib::SharedFutureOn<T, E>* on_handle = nullptr;
   bool promise_first = false, by_reference = false, exec_pool = false, root_drops_early = false;
   std::uint32_t pool_workers = 1, prod_delay = 0, id = 1;
